@@ -41,6 +41,8 @@ import AutosarVerif.Lemmas.Files
 import AutosarVerif.Lemmas.WorldOps
 import AutosarVerif.Lemmas.DeepCopy
 import AutosarVerif.Lemmas.DeepCopyWitness
+import AutosarVerif.Lemmas.CompatValid
+import AutosarVerif.Lemmas.MoveCopyInv
 
 namespace AV.C13
 open AV.W
@@ -129,5 +131,20 @@ theorem C13_witness_unnamed_copy_collides (vOk : Nat) : ¬ WInv copySpec vOk (op
 
 /-! non-vacuity: the unique-name search appends `_1`, `_2`, … -/
 example : (uniqueName [([47, 97], 1), ([47, 97, 95, 49], 2)] [] [97] 5 0).1 = [97, 95, 50] := by decide   -- "a" -> "a_2"
+
+
+/-! ### added in the third session: statements proved in the lemma files, restated here by name
+(`type_of%` keeps the statement identical to the lemma; the signature is quoted in the comment) -/
+
+/-- "… and still validates": for a successful deep copy into version `ver` whose recorded element types are the types the destination computes (`TypesAgreeAll`; false for the alien-type findings, witness below) the compatibility check with target `ver` lists nothing and the copy is valid in `ver` (`NodeValid`)
+`theorem deepCopy_compat_nil (hE : EnumKeysNodup S) (fuel : Nat) (h : Hdr) (kids : Items) (ver : Nat) (parent : PRef) (nid : Nat) (h' : Hdr) (k' : Items) (n' : Nat) (hf : kids.depth < fuel) (hc : deepCopy S fuel h kids ver parent nid = some (h', k', n')) (ht : TypesAgreeAll S ver h'.ety.typ k') (file : Nat) : (compatNode S file ver h' k').errs = [] ∧ (compatNode S file ver h' k').panic = false ∧ NodeValid S file ver h' k'` -/
+theorem C13_copy_still_validates : type_of% @AV.W.deepCopy_compat_nil := @AV.W.deepCopy_compat_nil
+
+/-- `theorem copy_alien_needed : allCompatB toySpec 1 alienCopy.1 alienCopy.2 = true ∧ (compatNode toySpec 0 1 alienCopy.1 alienCopy.2).errs = [.elem 1 maxMask] ∧ ¬ TypesAgreeAll toySpec 1 alienCopy.1.ety.typ alienCopy.2` -/
+theorem C13_witness_alien_type_copy_not_valid : type_of% @AV.W.CompatValidWitness.copy_alien_needed := @AV.W.CompatValidWitness.copy_alien_needed
+
+/-- a guarded copy (named source, content permitted in the destination version) keeps the full invariant of the world: in particular every copied identifiable and reference is findable, the source is untouched, ids stay unique
+`theorem opCopy_ginv (hH : IdxHyp S V vOk) (hR : RefWF S) (hv32 : vOk &&& 0xFFFFFFFF = vOk) (w : World) (p x : Nat) (pos? : Option Nat) (hg : GInv S vOk w) (hgd : CopyGuard S V w p x) : GInv S vOk (opCopy S V w p x pos?).1` -/
+theorem C13_guarded_copy_keeps_all_invariants : type_of% @AV.W.opCopy_ginv := @AV.W.opCopy_ginv
 
 end AV.C13
